@@ -121,6 +121,21 @@ Theorem C11_select_resend_refuted : ~ C11_select_statement false.
 Proof. intros H. specialize (H 3 0 0 [(1, 0); (0, 0)]). vm_compute in H. discriminate H. Qed.
 Print Assumptions C11_select_resend_refuted.
 
+(* A reader over a source expression that matches no partition (the cursor over no partitions): its waiting request is
+   left after one round -- WaitNewData returns when the time-out context is done, the answer is empty -- and the answer's
+   continuation request is the same query; with C11_select_no_skip for n = 0 the continuation delivers whatever a partition
+   created later holds. *)
+Theorem C11_empty_source_returns : forall fuel (Q : Type) (q : Q), 1 <= fuel ->
+  empty_wait_loop code_empty_waits_for_ctx fuel = Some 1 /\ empty_continuation code_empty_keeps_query q = Some q.
+Proof. intros fuel Q q H. split; [exact (empty_wait_loop_exits fuel H)|reflexivity]. Qed.
+Print Assumptions C11_empty_source_returns.
+
+(* the variant whose WaitNewData answers nil at once: the loop is never left, whatever the fuel (the request never returns,
+   not even at its time-out) *)
+Theorem C11_empty_source_at_once_refuted : forall fuel, empty_wait_loop false fuel = None.
+Proof. exact empty_wait_loop_spins. Qed.
+Print Assumptions C11_empty_source_at_once_refuted.
+
 (* ---- non-vacuity ---- *)
 (* a sleeping waiter is reachable; the race "flush between capture and registration" ends with the reader woken;
    a flush after registration wakes it through the notification; without a flush it stays asleep *)
